@@ -236,7 +236,7 @@ impl Prop for C18 {
          the last flag byte; values arbitrary: f32 by bit pattern incl. NaN payloads, colours any bytes, strings Shift-JIS-lossless incl. empty) is serialized, re-read with BinArchive::from_bytes + AssetBinary::from_archive and compared field by field incl. every presence flag \
          (f32 via to_bits; absent typed fields must read back as the default); re-serializing must give identical bytes; walking the data region with the independent reader, each record must occupy exactly the bytes its flags announce \
          ((4 or 8) + 4 + 4 per set bit), the short form must be used iff no extended field is present, and the region must end with the 4-byte terminator. Bounded-exhaustive: all-absent, all-present, each single field alone, each single field missing from all-present, each adjacent pair, \
-         each as the middle spec of a 3-spec file and alone. 1 case in 400 has 257..=300 specs; 1 string in ~300 is up to 36 KiB long. The re-read value is then edited through its public fields (first set / spec moved to the end, meta, one clip name or the header flags changed) and must round-trip again (edited-value-round-trip). Non-trivial: a spec with >= 1 extended field and another field after it, or an all-absent/name-only spec inside a list. Distinct = distinct case value."
+         each as the middle spec of a 3-spec file and alone. 1 case in 400 has 257..=300 specs; 1 string in ~300 is up to 36 KiB long. The re-read value is then edited through its public fields (first set / spec moved to the end, meta, one clip name or the header flags changed) and must round-trip again (edited-value-round-trip). One case in three is preceded on the same thread by a serialization that fails (the same value with an unencodable name in its last spec; outcome ignored). Non-trivial: a spec with >= 1 extended field and another field after it, or an all-absent/name-only spec inside a list. Distinct = distinct case value."
             .into()
     }
     fn assumptions() -> Vec<String> {
@@ -310,6 +310,18 @@ impl Prop for C18 {
         let mut ab = AssetBinary::new();
         ab.flags = case.flags;
         ab.specs = case.specs.iter().map(to_spec).collect();
+        // one case in three is preceded, on this thread, by the serialization of the same value with one unencodable name in its LAST spec
+        // (fails after the other records were laid out; outcome ignored)
+        if (case.flags as usize + case.specs.len()) % 3 == 0 && !case.specs.is_empty() {
+            let mut bad = AssetBinary::new();
+            bad.flags = case.flags;
+            bad.specs = case.specs.iter().map(to_spec).collect();
+            if let Some(last) = bad.specs.last_mut() {
+                last.name = Some(super::prior::UNENCODABLE.to_string());
+            }
+            super::prior::quiet(|| bad.serialize().is_ok());
+            cx.label("after-a-failed-serialize-on-this-thread");
+        }
         let bytes = match cx.call(|| ab.serialize()) {
             Some(Ok(b)) => b,
             Some(Err(e)) => {
